@@ -4,15 +4,17 @@ import FxVerif.Model.Util
 
 ops (all numbers decimal; lists comma separated, `-` = empty):
   reset <threshold> <multiple> <slashFracMantissa> [<chain> <signedWindow> <nOracles>]
-  claim <wrapperBridger> <innerBridger> <nonce> <hashId> <kind: p | o | s:<extIds>> <extHeight>
+  claim <wrapperBridger> <innerBridger> <nonce> <hashId> <kind: p | c | o | s:<extIds>> <extHeight>
   bond <oracle> <bridger> <ext> <amount> <dep>
   adddel <oracle> <amount> <dep>
   editbr <oracle> <bridger>
   unbond <oracle> <ubd> <bal> <dep>
   gov <oracles> <dep>
   endblock <slashed> <oracleSetReq> [<blocks>]
-  exec <nonce> <fails>
-answer: `<out> lo=.. tp=.. ln=.. or=.. bb=.. be=.. prop=.. atts=.. pend=..` (maps in key order)
+  exec <nonce> <outcome: o | r | f> <forest>      forest ::= [ call , call , ... ]    call ::= <nonce>:<outcome><forest>
+       e.g.  exec 1 o [1:o[],2:r[3:o[]],3:o[]]   (the calls the called-back contracts make, in order)
+answer: `<out> lo=.. tp=.. ln=.. or=.. bb=.. be=.. prop=.. atts=.. pend=.. ex=.. ev=..` (maps in key order; ev = nonce/hash observed by this op; ex = nonce:times its
+deferred effects are in force)
 -/
 open FxVerif FxVerif.Util FxVerif.Model.C01
 
@@ -23,10 +25,46 @@ def bool? (w : String) : Option Bool :=
   if w == "1" then some true else if w == "0" then some false else none
 
 def kind? (w : String) : Option Kind :=
-  if w == "p" then some .pending
+  if w == "p" || w == "c" then some .pending   -- send-to-fx / bridge-call claim: both are parked for later execution
   else if w == "o" then some .other
   else if w.startsWith "s:" then (natList? (w.drop 2).toString).map Kind.oracleSet
   else none
+
+def outcome? (c : Char) : Option Outcome :=
+  if c == 'o' then some .ok else if c == 'r' then some .refund else if c == 'f' then some .fail else none
+
+/-- digits at the head of a character list -/
+def takeNat (cs : List Char) : Option (Nat × List Char) :=
+  let ds := cs.takeWhile Char.isDigit
+  if ds.isEmpty then none else (String.ofList ds).toNat?.map (fun n => (n, cs.drop ds.length))
+
+mutual
+/-- `[` call (`,` call)* `]` -/
+def parseForest : Nat → List Char → Option (Calls × List Char)
+  | 0, _ => none
+  | fuel + 1, '[' :: ']' :: rest => let _ := fuel; some (.nil, rest)
+  | fuel + 1, '[' :: rest => parseCalls fuel rest
+  | _, _ => none
+/-- call (`,` call)* `]` as a first-child / next-sibling chain -/
+def parseCalls : Nat → List Char → Option (Calls × List Char)
+  | 0, _ => none
+  | fuel + 1, cs =>
+    match takeNat cs with
+    | some (n, ':' :: oc :: rest) =>
+      match outcome? oc, parseForest fuel rest with
+      | some o, some (inner, rest2) =>
+        match rest2 with
+        | ',' :: rest3 => (parseCalls fuel rest3).map (fun (next, r) => (.call n o inner next, r))
+        | ']' :: rest3 => some (.call n o inner .nil, rest3)
+        | _ => none
+      | _, _ => none
+    | _ => none
+end
+
+def forest? (w : String) : Option Calls :=
+  match parseForest (w.length + 2) w.toList with
+  | some (c, []) => some c
+  | _ => none
 
 def parseOp (ws : List String) : Option Op :=
   match ws with
@@ -39,7 +77,7 @@ def parseOp (ws : List String) : Option Op :=
   | ["gov", l, d] => do pure (.gov (← natList? l) (← bool? d))
   | ["endblock", l, r] => do pure (.endBlock (← natList? l) (← bool? r))
   | ["endblock", l, r, _blocks] => do pure (.endBlock (← natList? l) (← bool? r))
-  | ["exec", n, f] => do pure (.exec (← n.toNat?) (← bool? f))
+  | ["exec", n, o, c] => do pure (.exec (← n.toNat?) (← (match o.toList with | [ch] => outcome? ch | _ => none)) (← forest? c))
   | _ => none
 
 def showOut : Out → String
@@ -55,6 +93,11 @@ def sortMap {α : Type} (m : Map α) : Map α := m.mergeSort (fun a b => a.1 ≤
 
 def b2s (b : Bool) : String := if b then "1" else "0"
 
+/-- nonce:count for every nonce in the execution log -/
+def showEx (l : List Nat) : String :=
+  let ks := (sortNat l).eraseDups
+  joinOr (ks.map fun k => s!"{k}:{l.count k}") ","
+
 def showState (s : State) : String :=
   let ln := (sortMap s.lastNonce).map fun p => s!"{p.1}:{p.2}"
   let ors := (sortMap s.oracles).map fun p => s!"{p.1}:{p.2.bridger}:{p.2.ext}:{p.2.stake}:{b2s p.2.online}:{p.2.slashTimes}"
@@ -63,7 +106,7 @@ def showState (s : State) : String :=
   let atts := (s.atts.mergeSort (fun a b => a.nonce < b.nonce || (a.nonce == b.nonce && a.hash ≤ b.hash))).map fun a =>
     s!"{a.nonce}/{a.hash}/{joinOr (a.votes.map toString) "."}/{b2s a.observed}"
   s!"lo={s.lastObserved} tp={s.lastTotalPower} ln={joinOr ln ","} or={joinOr ors ","} bb={joinOr bb ","} be={joinOr be ","} " ++
-  s!"prop={joinOr ((sortNat s.proposal).map toString) ","} atts={joinOr atts ";"} pend={joinOr ((sortNat s.pending).map toString) ","}"
+  s!"prop={joinOr ((sortNat s.proposal).map toString) ","} atts={joinOr atts ";"} pend={joinOr ((sortNat s.pending).map toString) ","} ex={showEx s.executedLog}"
 
 def stepLine (s : State) (line : String) : State × String :=
   match words line with
@@ -79,7 +122,10 @@ def stepLine (s : State) (line : String) : State × String :=
     match parseOp ws with
     | some op =>
       let (s', o) := step s op
-      (s', showOut o ++ " " ++ showState s')
+      -- ev = the (nonce, hash id) entries this step appended to the observation log
+      let added := s'.observedLog.drop s.observedLog.length
+      let ev := if added.isEmpty then "-" else "+".intercalate (added.map fun p => s!"{p.1}/{p.2}")
+      (s', showOut o ++ " " ++ showState s' ++ " ev=" ++ ev)
     | none => (s, "bad-op")
 
 def main : IO Unit := runDriver stepLine (init {})
